@@ -118,23 +118,35 @@ func evaluationLoop(
 
 	p.Errors = []error{}
 
-	for {
-		t, err := p.Read()
-		if err != nil {
-			p.Fatal(ctx, err)
-		}
+	func() {
+		defer func() {
+			if r := recover(); r != nil {
+				if r != parser.ErrUnexpectedEOF {
+					panic(r)
+				}
 
-		err = evaluator.Eval(&p, ctx, t)
-		if err != nil {
-			p.Fatal(ctx, err)
-		}
+				p.Fatal(ctx, parser.ErrUnexpectedEOF)
+			}
+		}()
 
-		if t != nil {
-			continue
-		}
+		for {
+			t, err := p.Read()
+			if err != nil {
+				p.Fatal(ctx, err)
+			}
 
-		break
-	}
+			err = evaluator.Eval(&p, ctx, t)
+			if err != nil {
+				p.Fatal(ctx, err)
+			}
+
+			if t != nil {
+				continue
+			}
+
+			break
+		}
+	}()
 
 	if round != "check" {
 		return
